@@ -258,6 +258,15 @@ def run_unit(name, tier="quick", config="A", opts=None, keep=None):
                                        raw=(dg.get("rendered") or "")[:3000])
                 fo["contract_origin"] = next((o for o in (_origin(s["line_start"], linemap) for s in spans)
                                               if o and o.startswith("verif:")), None)
+                # proof HINTS of the overlay (assert / loop invariant / decreases spliced into a repo function, calls
+                # of lemmas from spliced proof text) as opposed to contract CLAUSES (requires/ensures of repo
+                # functions, overflow / bounds / the repo's own assert!s): a hint that stops holding after a source
+                # change is a broken proof, not evidence against the property
+                prim_origin = _origin(pl, linemap) or ""
+                if fnr and kind in ("assertion", "invariant", "termination") and prim_origin.startswith("verif:"):
+                    fo["hint"] = True
+                if fnr and kind == "precondition" and (_origin(call_line, linemap) or "").startswith("verif:"):
+                    fo["hint"] = True
                 failed.append(fo)
             elif cls == "undecided":
                 undec.append(msg)
@@ -309,6 +318,15 @@ def run_unit(name, tier="quick", config="A", opts=None, keep=None):
                 suspect.append(failed_obligation(pth, "other", "function body outside the extraction rules: " + why[:200],
                                                  location=loc))
                 undec.append("%s: %s" % (pth, why[:200]))
+        hints = [f for f in failed if f.get("hint")]
+        if hints:
+            failed = [f for f in failed if not f.get("hint")]
+            for f in hints:
+                f = dict(f)
+                f["message"] = "proof hint of the contract overlay no longer holds (%s: %s)" % (f["message"], (f.get("clause") or "")[:120])
+                suspect.append(f)
+            undec.append("proof hints of the overlay no longer hold in %s (not contract clauses: undecided unless a failing "
+                         "input is found)" % ", ".join(sorted({f["function"] for f in hints}))[:400])
         seen_fn = set()
         for f in rejected_in:
             if f["function"] not in seen_fn:
